@@ -224,7 +224,240 @@ def result_rule(fn, last):
     return inst, probs, unrec
 
 
-FLOOR = {"quick": dict(facts=100, stores=20, results=12), "thorough": dict(facts=500, stores=20, results=12)}
+# ---------------------------------------------------------------- E. layout contract between the solvers, the selection and fill
+_FILL_SCI = "cnl::_impl::fill(cnl::_impl::descaled_info const&, cnl::_impl::scientific_solution const&)"
+_FILL_FIX = "cnl::_impl::fill(cnl::_impl::descaled_info const&, cnl::_impl::fixed_solution const&)"
+_STATIC10 = "auto cnl::to_chars_static<10, int>(int const&)"
+_MMAX = 4096
+
+
+def layout_lines(tier):
+    """One line per (significand length S, decimal exponent E); the buffer size m is the free variable.
+
+    Three facts about the real solvers, each a kernel `bool(int m, char const*)` that builds a descaled_info with S, E and
+    the exponent text pinned and calls the real solve_scientific / solve_fixed:
+      Vs  the scientific layout is one fill can carry out inside m characters: at least one digit, num_chars <= m, and
+          num_chars is what fill(scientific) writes (digits, point, 'e', exponent text);
+      Vf  the same for the fixed layout: at least one digit, num_chars <= m, the digits before the point and the trailing
+          zeros (which fill(fixed) writes unconditionally) fit, and no more digits than the significand has;
+      Ps  the property's preference: (digits, -chars) of the scientific layout is greater than that of the fixed one.
+    and one kernel that calls the real to_chars_positive (the real selection, with the real solvers inlined into it), in
+    which the two fill overloads are cut to never-returning declarations, so that the control-only ite tree over m says
+    which of fill(scientific) / fill(fixed) / value_too_large / a failing CNL_ASSERT every buffer size reaches."""
+    L = []
+    Ss = [1, 2, 3, 5, 10, 19] if tier == "quick" else list(range(1, 21)) + [38, 39]
+    Es = [-70, -40, -20, -9, -3, -1, 0, 1, 2, 5, 20] if tier == "quick" else list(range(-80, 41))
+    for S in Ss:
+        for E in Es:
+            X = len(str(E + S - 1))
+            info = ("cnl::_impl::descaled_info info; info.num_significand_digits = %d; info.exponent = %d; info.max_chars = m; "
+                    "info.exponent_chars = std::string_view(p, %d); info.exponent_has_sign = %s; "
+                    "auto const f = cnl::_impl::solve_fixed(info); auto const s = cnl::_impl::solve_scientific(info); ") % (S, E, X, "true" if E + S - 1 < 0 else "false")
+            L.append(dict(key="layout/S=%d/E=%d" % (S, E), S=S, E=E, X=X,
+                          Vs=info + "return s.num_significand_digits > 0 && s.num_chars <= m && s.num_chars == s.num_significand_digits + 2 + %d;" % X,
+                          Vf=info + "return f.num_significand_digits > 0 && f.num_chars <= m && %d + f.trailing_zeros <= m && f.num_significand_digits <= %d;" % (max(0, S + min(0, E)), S),
+                          Ps=info + "return std::tuple{s.num_significand_digits, -s.num_chars} > std::tuple{f.num_significand_digits, -f.num_chars};",
+                          sel="if (m < 0 || m > %d) __builtin_unreachable(); auto const r = cnl::_impl::to_chars_positive(f, f + m, std::string_view(p, %d), %d); return int(r.ec);" % (_MMAX, S, E)))
+    return L
+
+
+def _static10_stub(name, values):
+    """to_chars_static<10,int>(n) is modelled by what it is specified to return, the decimal text of n and its length
+    (to_chars_static_result{std::array<char, 12>, int}, returned as {i64, i64}); only the exponents the lines use"""
+    out = ["define linkonce_odr dso_local { i64, i64 } @%s(i32* noundef nonnull align 4 dereferenceable(4) %%0) {" % name,
+           "  %v = load i32, i32* %0, align 4", "  switch i32 %v, label %dflt ["]
+    for k, v in enumerate(values):
+        out.append("    i32 %d, label %%c%d" % (v, k))
+    out.append("  ]")
+    for k, v in enumerate(values):
+        t = str(v).encode() + b"\0" * 12
+        c0 = int.from_bytes(t[:8], "little")
+        c1 = int.from_bytes(t[8:12], "little") | (len(str(v)) << 32)
+        out += ["c%d:" % k, "  ret { i64, i64 } { i64 %d, i64 %d }" % (c0, c1)]
+    out += ["dflt:", "  unreachable", "}"]
+    return out
+
+
+def selection_trees(work, L, tag):
+    """compile the to_chars_positive kernels, cut fill to noreturn declarations, model to_chars_static, inline, and
+    return {key: control-only ite tree}"""
+    from vlib import gate
+    src = os.path.join(work, "sel_%s.cpp" % tag)
+    with open(src, "w") as f:
+        f.write(tc.PRELUDE["clang"] + "\n")
+        for i, ln in enumerate(L):
+            f.write('extern "C" int sel%d(char* f, int m, char const* p) { %s }\n' % (i, ln["sel"]))
+        f.write('extern "C" int selctl(char* f, int m, char const* p) { if (m < 0 || m > %d) __builtin_unreachable(); if (m == 7) cnl::_impl::unreachable<void>("control"); return 75; }\n' % _MMAX)
+    raw = os.path.join(work, "sel_%s.raw.ll" % tag)
+    cmd = [tc.CLANGXX, "-std=gnu++20", "-I", os.path.join(tc.REPO, "include"), "-O2", "-Xclang", "-disable-llvm-passes", "-fwrapv", "-S", "-emit-llvm", src, "-o", raw]
+    rc, so, se = tc.run(cmd)
+    if rc != 0:
+        raise tc.AnalysisBroken("selection TU does not compile: " + se[:1500])
+    lines = open(raw).read().split("\n")
+    names = re.findall(r"^define [^@]*@([\w.$]+)\(", "\n".join(lines), re.M)
+    dem = tc.demangle(names)
+    want = {_FILL_SCI: None, _FILL_FIX: None, _STATIC10: None}
+    for n, d in dem.items():
+        if d in want:
+            want[d] = n
+    missing = [d for d, n in want.items() if n is None]
+    if missing:
+        raise tc.AnalysisBroken("anchor vanished from the to_chars_positive unit: " + ", ".join(missing))
+    vals = sorted({ln["E"] + ln["S"] - 1 for ln in L})
+    out, i = [], 0
+    while i < len(lines):
+        l = lines[i]
+        m = re.match(r"^define [^@]*@([\w.$]+)\(", l)
+        if m and m.group(1) in (want[_FILL_SCI], want[_FILL_FIX]):
+            sig = l[:l.rindex(")") + 1]
+            sig = re.sub(r"^define (linkonce_odr )?(dso_local )?", "declare ", sig)
+            sig = re.sub(r" %\d+(?=[,)])", "", sig)
+            out.append(sig + " noreturn nounwind")
+            while lines[i] != "}":
+                i += 1
+        elif m and m.group(1) == want[_STATIC10]:
+            out += _static10_stub(want[_STATIC10], vals)
+            while lines[i] != "}":
+                i += 1
+        else:
+            out.append(l)
+        i += 1
+    ed = os.path.join(work, "sel_%s.ed.ll" % tag)
+    open(ed, "w").write("\n".join(out))
+    o1, o2 = os.path.join(work, "sel_%s.o1.ll" % tag), os.path.join(work, "sel_%s.o2.ll" % tag)
+    for a_, b_ in ((ed, o1), (o1, o2)):
+        rc, so, se = tc.run([tc.OPT, "-S", "-O2", "-inline-threshold=1000000", a_, "-o", b_])
+        if rc != 0:
+            raise tc.AnalysisBroken("opt failed on the selection module: " + se[:800])
+    mod = ir.parse_module(open(o2).read())
+    trees = {}
+    for i, ln in enumerate(L + [dict(key="control/selection")]):
+        fn = mod.functions.get("sel%d" % i if i < len(L) else "selctl")
+        if fn is None:
+            trees[ln["key"]] = gate.Unsupported("kernel vanished")
+            continue
+        try:
+            trees[ln["key"]] = gate.gated(mod, fn, control_only=True)
+        except (gate.Unsupported, RecursionError) as e:
+            trees[ln["key"]] = e
+    return trees, want
+
+
+def run_layout(r, work, tier):
+    from vlib import kern, gate, iset
+    from vlib.iset import ISet
+    L = layout_lines(tier)
+    obs = []
+    P = [("int", "m"), ("char const*", "p")]
+    for ln in L:
+        for part in ("Vs", "Vf", "Ps"):
+            ob = kern.Ob(ln["key"] + "/" + part, "bool", P, ln[part], [], pre=["m >= 0", "m <= %d" % _MMAX], kind="ir")
+            ob.line, ob.part = ln, part
+            obs.append(ob)
+    ctl = kern.Ob("control/layout", "bool", P, "return m != 7;", [], pre=["m >= 0", "m <= %d" % _MMAX], kind="ir")
+    kern.run_obligations(work, obs + [ctl], batch=60, second_chance=False)
+    chunks = [L[i:i + 150] for i in range(0, len(L), 150)]
+    trees = {}
+    for res, _ in tc.pmap(lambda a: selection_trees(work, a[1], str(a[0])), list(enumerate(chunks))):
+        trees.update(res)
+    cnt = {"proved": 0, "refuted": 0, "undecided": 0}
+    dom = ISet.from_signed(32, 0, _MMAX)
+
+    def truthset(ob):
+        """the set of buffer sizes on which a boolean kernel is true"""
+        var = ("arg", 0, "i32")
+        g = gate.gated(ob.mod, ob.fn)
+        T = ISet.empty(32)
+        for D, leaf in iset.leaves(g, var, dom):
+            if gate.is_c(leaf):
+                if leaf[2] == 1:
+                    T = T | D
+                continue
+            iset._HINT[0] = D
+            t = iset.truth(leaf, var)
+            if t is None:
+                raise iset.Undecided("leaf " + gate.show(leaf)[:120])
+            T = T | (D & t)
+        return T
+
+    def exits(tree):
+        """partition of the buffer sizes by the exit the real to_chars_positive takes"""
+        if isinstance(tree, Exception):
+            raise tree
+        var = ("arg", 1, "i32")
+        E = {"sci": ISet.empty(32), "fix": ISet.empty(32), "fail": ISet.empty(32), "assert": ISet.empty(32)}
+        msgs = {}
+        for D, leaf in iset.leaves(tree, var, dom):
+            if leaf[0] == "effect":
+                d = tc.demangle([leaf[1]])[leaf[1]]
+                if d == _FILL_SCI:
+                    E["sci"] = E["sci"] | D
+                elif d == _FILL_FIX:
+                    E["fix"] = E["fix"] | D
+                else:
+                    E["assert"] = E["assert"] | D
+                    msgs[D.describe(True)] = leaf[2][0][2] if leaf[2] else d
+            elif gate.is_c(leaf) and leaf[2] == 0:
+                raise iset.Undecided("to_chars_positive returns success without calling fill")
+            elif gate.is_c(leaf):
+                E["fail"] = E["fail"] | D
+            else:
+                raise iset.Undecided("exit not classified: " + gate.show(leaf)[:120])
+        return E, msgs
+    try:
+        if truthset(ctl).describe(True) != (dom - ISet.from_signed(32, 7, 7)).describe(True):
+            r.broke("layout control: `m != 7` is not decided true exactly off {7}")
+        E, msgs = exits(trees.get("control/selection", gate.Unsupported("missing")))
+        if E["assert"].describe(True) != "{7}" or "control" not in " ".join(msgs.values()):
+            r.broke("selection control: the seeded assertion at m == 7 was not found exactly on {7}")
+    except Exception as e:
+        r.broke("layout/selection control failed: %r" % (e,))
+    byline = {}
+    for ob in obs:
+        byline.setdefault(ob.line["key"], {})[ob.part] = ob
+    for ln in L:
+        key = ln["key"]
+        try:
+            sets = {}
+            for part, ob in byline[key].items():
+                if ob.status != "compiled":
+                    raise tc.AnalysisBroken("%s: %s" % (ob.key, ob.detail))
+                sets[part] = truthset(ob)
+            E, msgs = exits(trees.get(key, gate.Unsupported("missing")))
+        except tc.AnalysisBroken as e:
+            r.broke(str(e))
+            continue
+        except (gate.Unsupported, iset.Undecided, RecursionError) as e:
+            cnt["undecided"] += 1
+            ln["undecided"] = repr(e)[:200]
+            continue
+        Vs, Vf, Ps = sets["Vs"], sets["Vf"], sets["Ps"]
+        probs = []
+        if E["assert"]:
+            probs.append(("assertion-reached", E["assert"], "a CNL_ASSERT of to_chars_positive fails (%s)" % "; ".join(sorted(set(msgs.values())))[:300]))
+        if E["sci"] - Vs:
+            probs.append(("scientific-chosen-without-room", E["sci"] - Vs, "fill(scientific) is reached with a layout it cannot carry out inside the buffer"))
+        if E["fix"] - Vf:
+            probs.append(("fixed-chosen-without-room", E["fix"] - Vf, "fill(fixed) is reached with a layout whose integer digits, trailing zeros or characters exceed the buffer"))
+        if E["fail"] & (Vs | Vf):
+            probs.append(("too-large-although-a-layout-fits", E["fail"] & (Vs | Vf), "value_too_large is reported although a layout with at least one significant digit fits"))
+        both = Vs & Vf
+        if (E["sci"] & both) - Ps or (E["fix"] & both & Ps):
+            probs.append(("preference", ((E["sci"] & both) - Ps) | (E["fix"] & both & Ps), "both layouts fit and the one with fewer significant digits (or as many and more characters) is chosen"))
+        if probs:
+            cnt["refuted"] += 1
+            for kind, D, text in probs:
+                if kind == "assertion-reached" and "num_significand_digits > 0" in text:
+                    kind = "scientific-chosen-without-room"
+                r.violation(key + "/" + kind, "to_chars_positive with a %d-digit significand and decimal exponent %d, buffer sizes %s: %s" % (ln["S"], ln["E"], D.describe(True), text),
+                            {"key": key, "kind": kind, "buffer_sizes": D.describe(True), "exits": {k: v.describe(True) for k, v in E.items()},
+                             "Vs": Vs.describe(True), "Vf": Vf.describe(True), "Ps": Ps.describe(True), "kernel": ln["sel"]}, finding_key="layout/%s" % kind)
+        else:
+            cnt["proved"] += 1
+    return L, cnt
+
+
+FLOOR = {"quick": dict(facts=100, stores=20, results=12, layout=60), "thorough": dict(facts=500, stores=20, results=12, layout=2000)}
 
 
 def run(tier, seed, work):
@@ -331,14 +564,17 @@ def run(tier, seed, work):
             r.broke("%s: no path to cnl::to_chars found" % what)
         else:
             nu += 1
+    LL, lcnt = run_layout(r, work, tier)
+    common.floor_check(r, "layout lines decided", lcnt["proved"] + lcnt["refuted"], FLOOR[tier]["layout"])
     common.floor_check(r, "capacity facts judged", nf["proved"] + nf["refuted"], FLOOR[tier]["facts"])
     common.floor_check(r, "buffer stores checked", n_st, FLOOR[tier]["stores"])
     common.floor_check(r, "value_too_large returns checked", n_res, FLOOR[tier]["results"])
     r.coverage = {
-        "explanation": "capacity type facts vs an exact decimal-length oracle; dominance rule for every byte store of the integer path and the scaled overload's sign; ptr == last on every value_too_large return; who-may-call for the digit-writing internals; fixed-capacity users reach the buffer through cnl::to_chars. The layout arithmetic of solve_fixed/solve_scientific/fill is not decided.",
+        "explanation": "capacity type facts vs an exact decimal-length oracle; dominance rule for every byte store of the integer path and the scaled overload's sign; ptr == last on every value_too_large return; who-may-call for the digit-writing internals; fixed-capacity users reach the buffer through cnl::to_chars. E: the layout contract between the real solve_fixed/solve_scientific and fill's stated consumption, decided for every buffer size along lines with significand length and exponent pinned (fill's own loops are not analysed: their extents are taken from fill's CNL_ASSERTs and unconditional loops).",
         "evaluations": len(F) + n_st + n_res + len(fam), "distinct_nontrivial": nf["proved"] + n_st + n_res,
         "rule": "non-trivial = judged capacity fact, checked store, checked failure return",
         "capacity_facts": len(F), "capacity_facts_proved": nf["proved"], "capacity_rejected_by_library": nf["rejected"],
+        "layout_lines": len(LL), "layout_proved": lcnt["proved"], "layout_refuted": lcnt["refuted"], "layout_undecided": lcnt["undecided"],
         "functions_in_family": len(fam), "buffer_stores_checked": n_st, "value_too_large_returns_checked": n_res, "fixed_capacity_users_reaching_to_chars": nu,
         "samples": samples[:6] + [{"function": dem[n][:140], "kind": k} for n, k in sorted(fam.items())[:6]],
         "exhaustive": False,
